@@ -76,12 +76,19 @@ def replaceCharref (s : Str) : Except PyErr Str :=
     | some v => .ok v
     | none => .ok (prefixLoop s (s.length - 1))
 
+/-- `mistune.util._replace_known_charref(m)`: `ref[0] != "#" and ref not in html5` leaves the match as written -/
+def replaceKnownCharref (s : Str) : Except PyErr Str :=
+  match s with
+  | [] => .error .indexError                         -- `ref[0]`
+  | '#' :: _ => replaceCharref s
+  | _ => if (html5Lookup s).isSome then replaceCharref s else .ok ('&' :: s)
+
 /-- `mistune.util.unescape(s)`; `charrefRe` is `mistune.util._charref_re` -/
 def unescape (charrefRe : Rx) (s : Str) : Except PyErr Str :=
   if !s.contains '&' then .ok s
   else Py.reSubM charrefRe (fun a mt =>
     match Py.groupStr a mt 1 with
-    | some g => replaceCharref g
+    | some g => replaceKnownCharref g
     | none => .error .typeError) s                   -- `None[0]`
 
 /-- `mistune.util.escape_url(link) = quote(unescape(link), safe=":/?#@!$&()*+,;=%")` -/
